@@ -216,3 +216,10 @@ def run(ctx):
     ctx.rule("king_is_legal.reference-function")
     c04.check_king_is_legal(ctx, f, L)
     ctx.assumptions.append("the pawn generator is_legal delegates to is the audited one (C01/C04 batch specification)")
+    # the comparison goes through hash_without_ep: it separates exactly the positions only if the position-state writers
+    # keep hash and state in lock-step for every history (owned by C10; re-run here, a stale key makes same_position
+    # answer false for identical positions)
+    from . import c10
+    expl = ctx.explanation
+    c10.run(ctx)
+    ctx.explanation = expl
